@@ -25,86 +25,51 @@ def cube_from_cells(n: int, cells: Dict[Tuple[int, int], Tuple[float, float, flo
     return Cube(data)
 
 
-def np_hooks(n: int) -> Dict:
-    def logical(op):
-        def f(ev, call):
-            a, b = ev.ev(call.args[0]), ev.ev(call.args[1])
-            if not (isinstance(a, Vec) and isinstance(b, Vec)):
-                raise Unsupported("logical op on non-arrays", call)
-            return Vec([op(x, y) for x, y in zip(a.vals, b.vals)])
-        return f
+_RT: Dict[int, object] = {}
 
-    def where(ev, call):
-        v = ev.ev(call.args[0])
-        if not isinstance(v, Vec) or len(v.vals) != n * n:
-            raise Unsupported("where operand", call)
-        idx = [i for i, m in enumerate(v.vals) if m]
-        return ([i // n for i in idx], [i % n for i in idx])
 
-    def column_stack(ev, call):
-        t = ev.ev(call.args[0])
-        return [[a, b] for a, b in zip(*t)]
+def _runtime(proj: Project):
+    from ..engines.instances import Runtime
+    from ..engines.stdlib import install
+    if id(proj) not in _RT:
+        _RT.clear()
+        _RT[id(proj)] = install(Runtime(proj))
+    return _RT[id(proj)]
 
-    def shape(ev, call):
-        v = ev.ev(call.args[0])
-        if isinstance(v, Cube):
-            return (v.n, v.n, 3)
-        raise Unsupported("shape operand", call)
-    return {"logical_and": logical(lambda x, y: bool(x) and bool(y)), "logical_or": logical(lambda x, y: bool(x) or bool(y)),
-            "where": where, "column_stack": column_stack, "shape": shape}
+
+def _as_matrix(cube: Cube) -> Cube:
+    c = Cube([[list(cell) for cell in row] for row in cube.data])
+    c.as_matrix = True
+    return c
+
+
+def _call(proj: Project, name: str, *args):
+    """The real predicate (whatever numpy idiom / helper it uses) evaluated through the general library model."""
+    cls = proj.cls(MOD, "PairwiseBasedAlgorithm")
+    f = proj.method(cls, name)
+    try:
+        return f, _runtime(proj).call_static(cls, name, *args)
+    except Unsupported as exc:
+        raise AnalysisError(f"{f.qualname}: unsupported construct line {getattr(exc.node, 'lineno', '?')}: {exc}")
 
 
 def eval_graph(proj: Project, cube: Cube) -> GraphObj:
-    cls = proj.cls(MOD, "PairwiseBasedAlgorithm")
-    f = proj.method(cls, "_get_graph_of_elements_from_matrix")
-    graphs: List[GraphObj] = []
-
-    def graph_ctor(ev, call):
-        g = GraphObj()
-        kw = {k.arg: ev.ev(k.value) for k in call.keywords}
-        g.directed = kw.get("directed", ev.ev(call.args[0]) if call.args else False)
-        graphs.append(g)
-        return g
-    funcs = np_hooks(cube.n)
-    funcs["Graph"] = graph_ctor
-    evl = Evaluator({}, funcs)
-    try:
-        ret = evl.call_user(f.node, [cube])
-    except Unsupported as exc:
-        raise AnalysisError(f"{f.qualname}: unsupported construct line {getattr(exc.node, 'lineno', '?')}: {exc}")
+    f, ret = _call(proj, "_get_graph_of_elements_from_matrix", _as_matrix(cube))
     if not isinstance(ret, GraphObj):
         raise AnalysisError(f"{f.qualname}: does not return the graph it builds")
     return ret
 
 
 def eval_robust(proj: Project, cube: Cube) -> Set[Tuple[int, int]]:
-    cls = proj.cls(MOD, "PairwiseBasedAlgorithm")
-    f = proj.method(cls, "_get_robust_arcs_from_matrix")
-    evl = Evaluator({}, np_hooks(cube.n))
-    try:
-        ret = evl.call_user(f.node, [cube])
-    except Unsupported as exc:
-        raise AnalysisError(f"{f.qualname}: unsupported construct line {getattr(exc.node, 'lineno', '?')}: {exc}")
+    f, ret = _call(proj, "_get_robust_arcs_from_matrix", _as_matrix(cube))
     if not isinstance(ret, (set, frozenset)):
         raise AnalysisError(f"{f.qualname}: does not return a set of arcs")
     return {(a, b) for a, b in ret}
 
 
 def eval_all_tied(proj: Project, ids: Set[int], cube: Cube):
-    cls = proj.cls(MOD, "PairwiseBasedAlgorithm")
-    f = proj.method(cls, "can_be_all_tied")
-
-    def combinations(ev, call):
-        seq = ev.ev(call.args[0])
-        k = ev.ev(call.args[1])
-        if isinstance(seq, (set, frozenset)):
-            seq = sorted(seq)
-        return [tuple(c) for c in itertools.combinations(seq, k)]
-    evl = Evaluator({}, {"combinations": combinations})
-    try:
-        return evl.call_user(f.node, [ids, cube])
-    except Unsupported as exc:
-        raise AnalysisError(f"{f.qualname}: unsupported construct line {getattr(exc.node, 'lineno', '?')}: {exc}")
+    f, ret = _call(proj, "can_be_all_tied", set(ids), _as_matrix(cube))
+    return ret
 
 
 def check_graph_predicates(res, proj: Project, rule_arc: str, rule_robust: str = None, rule_tied: str = None):
